@@ -244,6 +244,53 @@ def valid_ts(T):
     return bad
 
 
+def documented_not_checked(T):
+    """Requirements that docs/data-model.md lists for mutations and migrations but explicitly
+    says may not be detected at load time.  Evaluated only on tables that satisfy valid_ts; the
+    gate accepts such tables, which is reported under explicit 'documented-not-checked:' keys."""
+    out = []
+    tnode = [n[0] for n in T["nodes"]]
+
+    def parent_at(u, x):
+        for l, r, p, c in T["edges"]:
+            if c == u and l <= x < r:
+                return p
+        return NULL
+
+    # "If another mutation occurs on the tree above the mutation in question, its ID must be
+    #  listed as the parent"
+    by_site = {}
+    for j, m in enumerate(T["muts"]):
+        by_site.setdefault(m[0], []).append(j)
+    for site, ids in by_site.items():
+        x = T["sites"][site][0]
+        for j in ids:
+            node = T["muts"][j][1]
+            same = [k for k in ids if k < j and T["muts"][k][1] == node]
+            if same:
+                expected = max(same)
+            else:
+                expected, u, steps = NULL, parent_at(node, x), 0
+                while u != NULL and steps <= len(T["nodes"]):
+                    on = [k for k in ids if T["muts"][k][1] == u]
+                    if on:
+                        expected = max(on)
+                        break
+                    u, steps = parent_at(u, x), steps + 1
+            if T["muts"][j][2] != expected and "mutation-parent-topology" not in out:
+                out.append("mutation-parent-topology")
+    # "time must be strictly between the time of its node and the time of any ancestral node from
+    #  which that node inherits on the segment [left, right)"
+    for l, r, node, src, dst, t in T["migs"]:
+        ok = t > tnode[node]
+        for el, er, p, c in T["edges"]:
+            if c == node and el < r and l < er and not t < tnode[p]:
+                ok = False
+        if not ok and "migration-time" not in out:
+            out.append("migration-time")
+    return out
+
+
 def trees_by_definition(T):
     """[(left, right, sorted (child, parent) pairs)] for a valid T."""
     pts = {0.0, T["L"]}
@@ -369,6 +416,35 @@ def single_departures(T, rng, rows_per_col=3):
                 out.append(("edges[%d].0=coord:left-of-edge-%d-same-child" % (row, row2), setcell("edges", row, 0, l2)))
                 out.append(("edges[%d].1=coord:right-of-edge-%d-same-child" % (row, row2), setcell("edges", row, 1, r2)))
                 out.append(("edges[%d].1=coord:just-past-left-of-edge-%d" % (row, row2), setcell("edges", row, 1, math.nextafter(l2, math.inf))))
+    for row in range(1, len(T["edges"])):
+        pa, pb = T["edges"][row - 1][2], T["edges"][row][2]
+        if pa != pb and tnode(pa) is not None and tnode(pb) is not None and tnode(pa) != tnode(pb):
+            out.append(("nodes[parent of edge %d].0=time:time-of-previous-parent" % row, setcell("nodes", pb, 0, tnode(pa))))
+            out.append(("nodes[parent of edge %d].0=time:time-of-next-parent" % (row - 1), setcell("nodes", pa, 0, tnode(pb))))
+            out.append(("nodes[parent of edge %d].0=time:just-below-previous-parent" % row,
+                        setcell("nodes", pb, 0, math.nextafter(tnode(pa), -math.inf))))
+    for row in pick_rows(len(T["edges"]), rng, rows_per_col):
+        # an edge touching L exactly / one ulp inside, and a parent that exists elsewhere (contiguity)
+        out.append(("edges[%d].1=coord:L" % row, setcell("edges", row, 1, L)))
+        others = [e[2] for k, e in enumerate(T["edges"]) if e[2] != T["edges"][row][2]]
+        if others:
+            out.append(("edges[%d].2=id:other-parent" % row, setcell("edges", row, 2, others[0])))
+            out.append(("edges[%d].2=id:other-parent-last" % row, setcell("edges", row, 2, others[-1])))
+    for row in pick_rows(len(T["muts"]), rng, rows_per_col + 1):
+        site, node, par, tm = T["muts"][row]
+        # parent references around the row itself and across sites
+        for lab, v in (("self", row), ("next", row + 1), ("previous", row - 1)):
+            if 0 <= v < len(T["muts"]) and v != par:
+                out.append(("muts[%d].2=id:%s" % (row, lab), setcell("muts", row, 2, v)))
+        other = [k for k, m in enumerate(T["muts"]) if m[0] != site and k < row]
+        if other:
+            out.append(("muts[%d].2=id:earlier-mutation-at-other-site" % row, setcell("muts", row, 2, other[-1])))
+    for row in range(len(T["migs"])):
+        P = T["npop"]
+        for col in (3, 4):
+            for v in (P - 1, P):
+                if v != T["migs"][row][col] and v >= 0:
+                    out.append(("migs[%d].%d=id:%s" % (row, col, "npop-1" if v == P - 1 else "npop"), setcell("migs", row, col, v)))
     for row in range(len(T["sites"])):
         for other in (row - 1, row + 1):
             if 0 <= other < len(T["sites"]) and isnum(T["sites"][other][0]):
@@ -652,6 +728,22 @@ def run_gate(T):
                 obs["load"] = classify(e)
         finally:
             os.unlink(path)
+    # tskit.load on the tables exactly as they are (no build_index first): tsk_treeseq_load =
+    # tsk_table_collection_load + tsk_treeseq_init(TAKE_OWNERSHIP), which never builds an index
+    if T["index"] is None:
+        tc3 = build_tc(T)
+        d = os.environ.get("VERIF_SCRATCH", common.SCRATCH_ROOT)
+        fd, path = tempfile.mkstemp(prefix="c02r-", suffix=".trees", dir=d)
+        os.close(fd)
+        try:
+            tc3.dump(path)
+            try:
+                ts3 = tskit.load(path)
+                obs["load_raw"] = {"v": "ok", "num_trees": ts3.num_trees}
+            except Exception as e:   # noqa: BLE001
+                obs["load_raw"] = classify(e)
+        finally:
+            os.unlink(path)
     return obs
 
 
@@ -790,6 +882,9 @@ class Gate(Family):
                 exp = trees_by_definition(T)
                 if obs["ts"]["num_trees"] != len(exp) or obs["trees"] != exp:
                     out.append(("tree-mismatch", "trees %r differ from the definition %r" % (obs["trees"], exp)))
+                for d in documented_not_checked(T):
+                    out.append(("documented-not-checked:" + d,
+                                "accepted although the documented requirement '%s' does not hold" % d))
         elif v == "LibraryError":
             if not bad:
                 out.append(("rejected-valid:" + obs["ts"]["err"], "valid tables rejected: %s" % obs["ts"]["err"]))
@@ -808,6 +903,12 @@ class Gate(Family):
                 out.append(("load-rejected-valid:" + obs["load"]["err"], "valid tables rejected by load: %s" % obs["load"]["err"]))
         else:
             out.append(("load-wrong-exception:" + lv, "load rejection is not a LibraryError: %s" % obs["load"].get("msg")))
+        if "load_raw" in obs:      # a file without an index is never a tree sequence ("the tables must be indexed")
+            rv = obs["load_raw"]["v"]
+            if rv == "ok":
+                out.append(("load-accepted-unindexed", "tskit.load accepted a file without an index"))
+            elif rv != "LibraryError":
+                out.append(("load-unindexed-wrong-exception:" + rv, "not a LibraryError: %s" % obs["load_raw"].get("msg")))
         return out
 
     def coq_check(self, case, obs):
@@ -824,7 +925,17 @@ class Gate(Family):
                 return "false"
             exp = "(Err %s)" % cz(code)
         # tree_sequence(): has_index() false -> build_index() (modelled, incl. its sort) -> gate
-        return "res_eqb (tree_sequence_gate %s) %s" % (coq_tables(T), exp)
+        term = "res_eqb (tree_sequence_gate %s) %s" % (coq_tables(T), exp)
+        raw = obs.get("load_raw")
+        if raw is not None and raw["v"] in ("ok", "LibraryError"):
+            # tskit.load of the unindexed file: the gate alone (load_gate), error class included
+            if raw["v"] == "ok":
+                e2 = "(Ok %s)" % cz(raw["num_trees"])
+            else:
+                code = err_codes().get(raw["err"])
+                e2 = "(Err %s)" % cz(code) if code is not None else None
+            term = "false" if e2 is None else "(%s) && res_eqb (load_gate %s) %s" % (term, coq_tables(T), e2)
+        return term
 
     def nontrivial(self, case, obs):
         T = case["T"]
@@ -973,8 +1084,9 @@ class F1Scope(Gate):
 FAMILIES = [Valid, Stream, F1Scope]
 
 NOT_COVERED = [
-    "requirements the docs say are not detected at load time: mutation.parent agreeing with the tree topology, "
-    "migration time between node and ancestor times, migration source population matching",
+    "migration source population matching the ancestors' population (documented, not checked by the gate, not evaluated "
+    "by the oracle); mutation.parent vs topology and migration time vs ancestry ARE evaluated and reported under "
+    "'documented-not-checked:' keys",
     "TSK_ERR_BAD_OFFSET / ragged-offset corruption (not reachable through the Python API; the model includes check_offsets)",
     "allocation failure paths (TSK_ERR_NO_MEMORY), TSK_ERR_TREE_OVERFLOW (needs 2^31 trees)",
 ]
